@@ -131,3 +131,72 @@ Theorem model_outputs_pass_spec :
     spec_ok s x m (addr_of (m_key m)) (admission addr_of s x m) = true.
 Proof. exact Proofs.C12.model_outputs_pass_spec. Qed.
 Print Assumptions model_outputs_pass_spec.
+
+(* ---- the validator has no memory: histories of validations on ONE shared object ---- *)
+(* [new_validator ops] is the members map as NewMembershipValidator fills it; [validator_run]
+   threads the object through a history of (claimed index, sender key) calls.  The answers of
+   ANY history are the map of the pure function [valid_membership] over the calls. *)
+Theorem validator_history_independent :
+  forall (addr_of : N -> N) (ops : list N) (calls : list (N * N)),
+    validator_run addr_of (new_validator ops) calls =
+    map (fun c => valid_membership addr_of ops (fst c) (snd c)) calls.
+Proof. exact Proofs.C12.validator_history_independent. Qed.
+Print Assumptions validator_history_independent.
+
+(* per call: the answer does not depend on what was validated before or after it on the same
+   object (hence on no interleaving of the member goroutines' calls, every call being one
+   atomic step of the object — the atomicity itself is the assumption the concurrent stream
+   of the driver validates) *)
+Theorem validator_answer_independent :
+  forall (addr_of : N -> N) (ops : list N) (pre post : list (N * N)) (idx key : N),
+    nth_error (validator_run addr_of (new_validator ops) (pre ++ (idx, key) :: post)) (length pre)
+    = Some (valid_membership addr_of ops idx key).
+Proof. exact Proofs.C12.validator_answer_independent. Qed.
+Print Assumptions validator_answer_independent.
+
+Theorem validator_history_sound :
+  forall (addr_of : N -> N) (ops : list N) (calls : list (N * N)) (idx key : N),
+    (length ops <= 255)%nat -> idx < 256 ->
+    In ((idx, key), true) (combine calls (validator_run addr_of (new_validator ops) calls)) ->
+    holds_index ops idx (addr_of key).
+Proof. exact Proofs.C12.validator_history_sound. Qed.
+Print Assumptions validator_history_sound.
+
+(* the receiving states: at every step but the done check and the follower the outcome of a
+   message does not depend on the messages received before it *)
+Theorem run_history_independent :
+  forall (addr_of : N -> N) (s : step) (x : ctx),
+    kind_of s <> KDone -> kind_of s <> KFollower ->
+    forall msgs, run addr_of s x msgs = map (fun m => (m, admission addr_of s x m)) msgs.
+Proof. exact Proofs.C12.run_history_independent. Qed.
+Print Assumptions run_history_independent.
+
+(* soundness of the executable history specs, and: observations that agree with the model
+   call by call pass it *)
+Theorem hist_spec_ok_sound :
+  forall (ops : list N) (tab : list (N * N)) (calls : list vcall),
+    hist_spec_ok ops tab calls = true ->
+    forall c, In c calls -> 0 < v_acc c -> holds_index ops (v_idx c) (tab_addr tab (v_key c)).
+Proof. exact Proofs.C12.hist_spec_ok_sound. Qed.
+Print Assumptions hist_spec_ok_sound.
+
+Theorem hist_agree_passes_spec :
+  forall (ops : list N) (tab : list (N * N)) (calls : list vcall),
+    (length ops <= 255)%nat ->
+    (forall c, In c calls -> v_idx c < 256) ->
+    hist_agree (validator_run (tab_addr tab) (new_validator ops)
+                              (map (fun c => (v_idx c, v_key c)) calls)) calls = true ->
+    hist_spec_ok ops tab calls = true.
+Proof. exact Proofs.C12.hist_agree_passes_spec. Qed.
+Print Assumptions hist_agree_passes_spec.
+
+Theorem run_spec_ok_sound :
+  forall (r : run_case),
+    run_spec_ok r = true ->
+    forall m o, In (m, o) (r_msgs r) -> acted o = true ->
+    holds_index (x_ops (r_ctx r)) (m_idx m) (tab_addr (r_tab r) (m_key m)) /\
+    (documents_self (r_step r) = true -> ~ In (m_idx m) (x_self (r_ctx r))) /\
+    same_session (r_ctx r) m = true /\
+    excluded_at (r_step r) (r_ctx r) (m_idx m) = false.
+Proof. exact Proofs.C12.run_spec_ok_sound. Qed.
+Print Assumptions run_spec_ok_sound.
